@@ -609,6 +609,33 @@ func c18Gate(c *Ctx) {
 	}
 }
 
+// alwaysDropsUserdata: on every path from entry to a return the function deletes the entry of the cached
+// username -> user record map (directly or through a callee that always does). A deletion that depends on a login
+// counter does not qualify: with two logins the record cached before the change keeps authenticating.
+func alwaysDropsUserdata(f *ssa.Function, depth int) bool {
+	if f == nil || len(f.Blocks) == 0 || depth > 3 {
+		return false
+	}
+	drop := func(in ssa.Instruction) bool {
+		cc := callOf(in)
+		if cc == nil {
+			return false
+		}
+		if _, isCall := in.(*ssa.Call); !isCall {
+			return false
+		}
+		if b, ok := cc.Value.(*ssa.Builtin); ok && b.Name() == "delete" && len(cc.Args) == 2 {
+			return hasFieldSuffix(desc(cc.Args[0]), "Userdata")
+		}
+		return alwaysDropsUserdata(cc.StaticCallee(), depth+1)
+	}
+	if len(sites(f, drop)) == 0 {
+		return false
+	}
+	q := &pathQ{fn: f, fromEntry: true, to: isReturn, via: drop}
+	return q.bypass() == nil
+}
+
 func c18Sessions(c *Ctx) {
 	r := "C18.6/stale-sessions"
 	for _, n := range []string{"ChangePassword", "ChangePermission", "SetActiveUser", "ChangeSQLPrivileges"} {
@@ -624,7 +651,16 @@ func c18Sessions(c *Ctx) {
 		for _, via := range []struct {
 			n string
 			p sitePred
-		}{{"removeUserFromLoginList", callTo(srvT + "removeUserFromLoginList")}, {"CloseSessionsForUser", callTo("(pkg/server/sessions.Manager).CloseSessionsForUser", "pkg/server/sessions.(*manager).CloseSessionsForUser")}} {
+		}{{"drop-cached-user-record", func(in ssa.Instruction) bool {
+			cc := callOf(in)
+			if cc == nil {
+				return false
+			}
+			if _, isCall := in.(*ssa.Call); !isCall {
+				return false
+			}
+			return alwaysDropsUserdata(cc.StaticCallee(), 0)
+		}}, {"CloseSessionsForUser", callTo("(pkg/server/sessions.Manager).CloseSessionsForUser", "pkg/server/sessions.(*manager).CloseSessionsForUser")}} {
 			q := &pathQ{fn: f, from: saves, to: successReturn, via: via.p}
 			construct := fmt.Sprintf("%s:after-saveUser:%s", fnName(f), via.n)
 			if len(sites(f, via.p)) == 0 {
